@@ -317,6 +317,23 @@ func c05r1(rc *core.RC) {
 			} else {
 				rc.Bad(d.key("control-bytes"), d.bs.Stmt.Pos(), "inside a string the bytes %s do not reach an error: a raw control character is accepted (RFC 8259 §7 forbids it)", core.FmtBytes(raw))
 			}
+			// the backslash clause has to look at the escape letter: an escape dispatch in the clause, in a
+			// function it calls, or (for scanners that jump) elsewhere in the same function
+			if bc := d.bs.ClauseOf('\\'); bc != nil {
+				validated := escapeValidated(rc, rc.P.Info(d.fd), bc, 0)
+				if !validated {
+					for _, o := range sites {
+						if o.fd == d.fd && o.role == "escape" {
+							validated = true
+						}
+					}
+				}
+				if validated {
+					rc.OK(d.key("escape-letter"), bc.Pos(), "the byte after a backslash goes through an escape dispatch")
+				} else {
+					rc.Bad(d.key("escape-letter"), bc.Pos(), "the byte after a backslash is stepped over without being looked at: \\q, \\x and \\u followed by anything are accepted here")
+				}
+			}
 			if !d.isError(0) {
 				// NUL must either error or refill (stream); in buffer mode it must error
 				cc := d.bs.ClauseOf(0)
@@ -773,6 +790,26 @@ func c05r3(rc *core.RC) {
 				rc.OK(key, ret.Pos(), "result of validateEndBuf")
 				continue
 			}
+			// `return err` with an error variable: an error return only inside `if err != nil { … }`
+			if id, isId := core.Unparen(last).(*ast.Ident); isId && !core.IsNilIdent(info, last) {
+				if v, isVar := info.Uses[id].(*types.Var); isVar && core.IsErrorType(v.Type()) {
+					inNilTest := false
+					path := core.PathTo(fd.Body, ret)
+					for i := len(path) - 2; i >= 1; i-- {
+						ifs, ok := path[i].(*ast.IfStmt)
+						if !ok || path[i+1] != ast.Node(ifs.Body) {
+							continue
+						}
+						if be, ok := core.Unparen(ifs.Cond).(*ast.BinaryExpr); ok && be.Op == token.NEQ && core.IsNilIdent(info, be.Y) && core.ObjOf(info, be.X) == v {
+							inNilTest = true
+						}
+					}
+					if !inNilTest {
+						rc.Bad(key, ret.Pos(), "after decoding, `return %s` hands back the decoder's error value, which is nil on success: the success path does not go through validateEndBuf, so bytes after the top-level value (also after an embedded NUL) are accepted by this entry point", id.Name)
+						continue
+					}
+				}
+			}
 			if core.IsNilIdent(info, last) {
 				// success return: must be dominated by an erroring validateEndBuf test
 				okDom := false
@@ -1200,6 +1237,35 @@ func underShortCircuit(root ast.Node, call *ast.CallExpr) bool {
 			continue
 		}
 		if (be.Op == token.LAND || be.Op == token.LOR) && be.Y.Pos() <= call.Pos() && call.End() <= be.Y.End() {
+			return true
+		}
+	}
+	return false
+}
+
+// escapeValidated: n contains (or calls, two levels deep, a module function that contains) a byte
+// switch with singleton clauses for 'u' and 'n', that is an escape-letter dispatch.
+func escapeValidated(rc *core.RC, info *types.Info, n ast.Node, depth int) bool {
+	found := false
+	var callees []*types.Func
+	ast.Inspect(n, func(m ast.Node) bool {
+		switch x := m.(type) {
+		case *ast.SwitchStmt:
+			if bs, _ := core.EvalByteSwitch(info, x); bs != nil && bs.HasLabel('u') && bs.HasLabel('n') && bs.HasLabel('t') {
+				found = true
+			}
+		case *ast.CallExpr:
+			if f := core.Callee(info, x); f != nil && f.Pkg() != nil && strings.HasPrefix(f.Pkg().Path(), core.ModPath) {
+				callees = append(callees, f)
+			}
+		}
+		return true
+	})
+	if found || depth >= 2 {
+		return found
+	}
+	for _, f := range callees {
+		if fd := rc.P.DeclOf(f); fd != nil && fd.Body != nil && escapeValidated(rc, rc.P.Info(fd), fd.Body, depth+1) {
 			return true
 		}
 	}
